@@ -31,6 +31,8 @@ RULE = ("tables: corpus (uniform / shorter last / LONGER last / one-bin / variab
         "LARGE genomes with few bins (cumulative length just below / at / above 2^31 and 2^32, chromosome lengths up to 2^31-1, fixed and variable bins) with the "
         "bin table handed over with int64 / int32 / uint32 coordinates and as returned by Cooler.bins()[:], records on every bin edge; "
         "histories: consecutive ingestions in one process against bin tables that agree in chromosomes and bin count but differ in boundaries; "
+        "invalid-record grid for pre-binned input: {row id out of range only, column id only, both, negative} x {symmetric, square, no triangle check} x "
+        "{create_cooler, load -f coo, load -f bg2}: refused with no cooler left, the same input without the bad record counted once; "
         "sanitize_pixels on random bin-id records; aggregate_records on every accepted output; CLI: cload pairs / load bg2 / load coo on "
         "small files with several chunks. One evaluation = one API call or CLI run compared with the model and the oracle. "
         "non-trivial = at least one retained record on a table with >=2 bins; distinct by full input")
@@ -276,6 +278,32 @@ def run_ctor(bins, case):
         return classify(e)
 
 
+def run_api_coo(tmpdir, tag, bins, case):
+    """cooler.create_cooler on pre-binned (COO) records: 'refused' (raised and left no cooler) | the stored pixel rows"""
+    import cooler
+    o = case["opts"]
+    d = os.path.join(tmpdir, f"api{os.getpid()}_{tag}")
+    os.makedirs(d, exist_ok=True)
+    uri = os.path.join(d, "o.cool")
+    recs = [r for ch in case["chunks"] for r in ch]
+    px = pd.DataFrame({"bin1_id": np.array([r[0] for r in recs], dtype=np.int64), "bin2_id": np.array([r[1] for r in recs], dtype=np.int64),
+                       "count": np.array([r[4] for r in recs], dtype=np.int64)})
+    try:
+        try:
+            cooler.create_cooler(uri, bins, px, symmetric_upper=bool(o["symmetric"]), triucheck=bool(o["triucheck"]), ensure_sorted=True)
+        except Exception as e:  # noqa: BLE001
+            left = False
+            try:
+                left = os.path.exists(uri) and bool(cooler.fileops.is_cooler(uri))
+            except Exception:  # noqa: BLE001
+                left = False
+            return "refused" + ("+cooler-left-behind" if left else "")
+        return read_pixels(uri)
+    finally:
+        import shutil
+        shutil.rmtree(d, ignore_errors=True)
+
+
 def run_gsfetch(bins, names, case):
     """GenomeSegmentation.fetch (the bin rows the tabix / pairix aggregators receive for a work chunk): ids of the returned rows"""
     from cooler.util import GenomeSegmentation, get_chromsizes
@@ -422,7 +450,14 @@ def run_cli(tmpdir, k, blocks, names, case):
         args += [bins_arg, inp, out]
         res = CliRunner().invoke(cli, args)
         if res.exit_code != 0:
-            return f"exit:{min(res.exit_code, 1)}"
+            left = False
+            if o.get("grid") and os.path.exists(out):
+                import cooler
+                try:
+                    left = bool(cooler.fileops.is_cooler(out))
+                except Exception:  # noqa: BLE001
+                    left = False
+            return f"exit:{min(res.exit_code, 1)}" + ("+cooler-left-behind" if left else "")
         return read_pixels(out)
     finally:
         import shutil
@@ -440,6 +475,8 @@ def run_case(tmpdir, tag, bins, blocks, names, case):
             return run_ctor(bins, case)
         if case["fn"] == "gs_fetch":
             return run_gsfetch(bins, names, case)
+        if case["fn"] == "api_coo":
+            return run_api_coo(tmpdir, tag, bins, case)
         if case.get("opts", {}).get("nproc", 1) > 1:
             return "deferred"          # a process pool cannot be started from a pool worker: the parent runs it
         return run_cli(tmpdir, tag, blocks, names, case)
@@ -566,6 +603,10 @@ def coq_pxrec(r):
 def model_expr(case):
     if case["fn"] == "ctor":
         return "true"
+    if case["fn"] == "api_coo":         # create_cooler on pre-binned records = the validated, summed pixel table (no sanitizing step)
+        o = case["opts"]
+        chunks = C.lst([C.lst([coq_pxrec(r) for r in ch]) for ch in case["chunks"]])
+        return f"load_coo (zlen (table blocks)) false TrilNone {C.b(bool(o['symmetric']) and bool(o['triucheck']))} {chunks}"
     if case["fn"] == "gs_fetch":        # C04's model of GenomeSegmentation.fetch / bedslice
         regs = C.lst([C.tup(C.nat(c), C.z(s), C.z(e)) for (c, s, e) in case["regions"]])
         return f"map (fun r : nat * Z * Z => let '(c, s, e) := r in segmentation_fetch blocks c (Some s) (Some e)) {regs}"
@@ -1039,6 +1080,58 @@ def gen_tabix_split(rng, widths, thorough):
     return cases
 
 
+def gen_invalid_grid(rng, widths):
+    """option x invalid input, pre-binned path: {row id out of range only, column id only, both, negative row, negative column}
+    x {symmetric-upper storage, square storage (-N), symmetric without the triangle check (API)} x {create_cooler, `cooler load -f coo`,
+    `cooler load -f bg2` (position beyond the chromosome / negative)}.  The load with the bad record must be refused and leave no
+    cooler; the same input without it must load and count every record once."""
+    blocks = blocks_from_widths(widths)
+    n = sum(len(w) for w in widths)
+    nc = len(blocks)
+    keys = sorted({(min(a, b_), max(a, b_)) for a, b_ in [(rng.randrange(n), rng.randrange(n)) for _ in range(6)]})
+    base = [[a, b_, 0, 0, rng.randint(1, 9)] for (a, b_) in keys]
+    far = n + rng.choice([0, 0, 1, 5])
+    inr = rng.randrange(n)
+    bads = {"row-oob": [far, inr, 0, 0, 3], "col-oob": [inr, far, 0, 0, 3], "both-oob": [n, far, 0, 0, 3],
+            "row-neg": [-1, inr, 0, 0, 3], "col-neg": [inr, -1 - rng.randrange(2), 0, 0, 3]}
+    cases = []
+    for kind in [None] + list(bads):
+        for (sym, triu) in ((1, 1), (0, 1), (1, 0), (0, 0)):
+            recs = [list(r) for r in base] + ([list(bads[kind])] if kind else [])
+            if kind and rng.random() < 0.5:
+                recs.insert(rng.randrange(len(recs)), recs.pop())              # the bad record anywhere in the input
+            cases.append({"fn": "api_coo", "widths": widths, "opts": {"symmetric": sym, "triucheck": triu, "grid": True},
+                          "chunks": [recs], "label": f"grid:api_coo:{kind or 'valid'}:{'sym' if sym else 'square'}{'' if triu else ':notriu'}"})
+        for ta in ("reflect", None):          # CLI: symmetric (default) and square (-N / --no-symmetric-upper)
+            recs = [list(r) for r in base] + ([list(bads[kind])] if kind else [])
+            csz = rng.choice([len(recs), 2, 3])
+            cases.append({"fn": "load_coo", "widths": widths, "opts": {"one_based": 0, "tril": ta, "ideal_b": None, "header": False, "grid": True},
+                          "chunks": [recs[i:i + csz] for i in range(0, len(recs), csz)],
+                          "label": f"grid:load_coo:{kind or 'valid'}:{'sym' if ta else 'square'}"})
+    # bg2: the anchor position decides the bin; out of range = beyond the chromosome end / negative (position == length is finding D2, not used here)
+    pos = [candidate_positions(blk) for blk in blocks]
+    seen, bgbase = set(), []
+    for _ in range(8):
+        c1, c2 = rng.randrange(nc), rng.randrange(nc)
+        a1, a2 = rng.choice(pos[c1][0]), rng.choice(pos[c2][0])
+        u = tuple(sorted((bin_containing(blocks, c1, a1), bin_containing(blocks, c2, a2))))
+        if u not in seen:
+            seen.add(u)
+            bgbase.append([c1, a1, a1 + 1, c2, a2, a2 + 1])
+    cb = rng.randrange(nc)
+    Lb = pos[cb][1]
+    for kind, badrec in [(None, None), ("row-beyond", [cb, Lb + 5, Lb + 6, 0, 0, 1]), ("col-beyond", [0, 0, 1, cb, Lb + 5, Lb + 6]),
+                         ("row-neg", [cb, -3, -2, 0, 0, 1]), ("col-neg", [0, 0, 1, cb, -3, -2])]:
+        for ta in ("reflect", None):
+            recs = [list(r) for r in bgbase] + ([badrec] if badrec else [])
+            csz = rng.choice([len(recs), 3])
+            chunks = [recs[i:i + csz] for i in range(0, len(recs), csz)]
+            cases.append({"fn": "load_bg2", "widths": widths, "opts": {"one_based": 0, "tril": ta, "ideal_b": None, "header": False, "grid": True},
+                          "chunks": chunks, "values": [[rng.randint(1, 9) for _ in ch] for ch in chunks],
+                          "label": f"grid:load_bg2:{kind or 'valid'}:{'sym' if ta else 'square'}"})
+    return cases
+
+
 LOADERS = ["cload_tabix", "cload_pairs", "load_bg2", "sanitize_records"]      # `cload pairix` needs pypairix, which is not installed
 
 CORPUS = [
@@ -1188,7 +1281,36 @@ def judge_gsfetch(ctx, case, impl, model):
             ctx.fail(one, {"expected_bin_ids": want if s < e else "at most the bin containing the position", "got": im}, None)
 
 
+def judge_api_coo(ctx, case, impl, model):
+    nb = sum(len(w) for w in case["widths"])
+    o = case["opts"]
+    rec = {k: case[k] for k in ("fn", "widths", "opts", "chunks")}
+    recs = [r for ch in case["chunks"] for r in ch]
+    ctx.case(rec, nontrivial=True, kind=case.get("label", "api_coo"))
+    if model is not None or True:
+        mo = unopt(model) if model is not None else "skip"
+        if mo != "skip":
+            ctx.compare("api_coo", rec, impl, "refused" if mo is None else [list(p) for p in mo])
+    bad = any(not (0 <= r[0] < nb and 0 <= r[1] < nb) for r in recs)
+    lower = any(r[0] > r[1] for r in recs)
+    if bad:          # a bin id outside the table: the load must be refused and leave no cooler, whatever the storage mode / checks
+        if impl != "refused":
+            ctx.fail(rec, {"expected": "refusal (no cooler written)", "got": impl if isinstance(impl, str) else impl[:10]}, None)
+    elif lower and o["symmetric"] and o["triucheck"]:
+        if not (isinstance(impl, str) and impl.startswith("refused")):
+            ctx.fail(rec, {"expected": "refusal (lower-triangle record for symmetric-upper storage)", "got": impl[:10]}, None)
+    else:
+        cnt = Counter()
+        for r in recs:
+            cnt[(r[0], r[1])] += r[4]
+        want = [[a, b_, v] for (a, b_), v in sorted(cnt.items())]
+        if impl != want:
+            ctx.fail(rec, {"expected": want[:10], "got": impl if isinstance(impl, str) else impl[:10]}, None)
+
+
 def judge(ctx, case, impl, model):
+    if case["fn"] == "api_coo":
+        return judge_api_coo(ctx, case, impl, model)
     if case["fn"] == "gs_fetch":
         return judge_gsfetch(ctx, case, impl, model)
     if case["fn"] == "ctor":
@@ -1310,7 +1432,9 @@ def judge(ctx, case, impl, model):
                 cnt[(r[0], r[1])] += vals[r[4]]
             total = [[a, b_, v] for (a, b_), v in sorted(cnt.items())]
         sig = D2 if any(d2_input(blocks, ob, ch) for ch in case["chunks"]) else None
-    if want == "error":
+    if want == "error" and o.get("grid") and isinstance(impl, str) and impl.endswith("cooler-left-behind"):
+        ctx.fail(rec, {"expected": "the refused load leaves no cooler", "got": impl}, sig)
+    elif want == "error":
         if not (isinstance(impl, str) and impl.startswith("exit")):
             ctx.fail(rec, {"expected": "the command must fail (a record lies outside its chromosome)", "got": impl[:8]}, sig)
     elif isinstance(impl, str) or impl != total:
@@ -1344,6 +1468,10 @@ def run(ctx):
         elif rng.random() < 0.5:
             cases += gen_unlisted_runs(rng, widths, [rng.choice(LOADERS)])
         per_table.setdefault(canon_w(widths), [widths, []])[1].extend(cases)
+    for widths in ([[10, 10], [10, 10, 5], [7]], [[3, 3, 2], [4, 4], [5]]) + (tuple(CORPUS[:6]) if thorough else ()):
+        grid = gen_invalid_grid(rng, list(widths))
+        for part, sel in (("#grid-coo", lambda c: c["fn"] != "load_bg2"), ("#grid-bg2", lambda c: c["fn"] == "load_bg2")):
+            per_table.setdefault(canon_w(widths) + part, [list(widths), []])[1].extend([c for c in grid if sel(c)])     # own worker jobs
     for rep in range(3 if thorough else 1):
         for widths in split_tables(rng):
             per_table.setdefault(canon_w(widths), [widths, []])[1].extend(gen_tabix_split(rng, widths, thorough))
